@@ -17,6 +17,12 @@ succeeds on the host (oracle).  `off` / `abbr` = what Go reports for the zone at
     dur    <arg>                                               {duration <arg>}
     durf   <arg>                                               {durationformat <arg>}
     cal    <days>                                              reference calendar only
+    seqe   <prefix> <kind> … (the fields of seq)              the date stage is `"<prefix>{0}"`: `<prefix>` is what it
+           yields without input (`emptyTime`); <strs> are the full texts; cache modes only
+    seqpar <prefix> <kind> … (the fields of seq)              as seqe, the real stage evaluated from 8 goroutines
+    kw     <word>                                              {time <word>}: key-word detection (now / live / delta)
+    cc     <fn> <argc> <const1> <enumok> <zoneok>              compile-time checks of the helpers (argument count, constant
+           bucket / attribute name, enum, zone), `<const1>` = 1 when the second argument is a constant
     zone   <zone> <table> at <unix>                            Location.lookup on a transition table
     zone   <zone> <table> date <wall>                          the zone resolution of time.Date
     ztime  <fmt> <zone> <str> <table>                          {time <str> <fmt> <zone>}, the zone given as a
@@ -52,6 +58,12 @@ def runCache (kind : String) (bl : Bytes) (loc : Loc) :
 
 def zipSeq : List Bytes → List Bytes → List Bool → List Int → List Bytes → List (Bytes × Option Bytes × Int × Bytes)
   | s :: ss, d :: ds, k :: ks, o :: os, a :: as => (s, (if k then some d else none), o, a) :: zipSeq ss ds ks os as
+  | _, _, _, _, _ => []
+
+def zipSeqF (kind : String) (bl : Bytes) (loc : Loc) :
+    List Bytes → List Bytes → List Bool → List Int → List Bytes → List (Bytes × Option Bytes × (Parsed → Out))
+  | s :: ss, d :: ds, k :: ks, o :: os, a :: as =>
+    (s, (if k then some d else none), parseOut kind bl loc o a) :: zipSeqF kind bl loc ss ds ks os as
   | _, _, _, _, _ => []
 
 def renderSeq (outs : List Out) : String :=
@@ -150,13 +162,45 @@ def handle : List String → String
         let bl := timeBucketToFormat bucketTable bucket
         if !ok then compileErr "func.parsing" "<PARSE-ERROR>"
         else match modeOf timeFormats fmt with
-          | .cache => renderSeq (runCache kind bl loc [] (zipSeq strs detect (flags dok) offs abbrs))
+          | .cache => renderSeq (cacheRun [] [] (zipSeqF kind bl loc strs detect (flags dok) offs abbrs))
           | .auto =>
             -- `dateparse.ParseIn` is the oracle: its instant goes through `f` unchanged
             if kind = "bucket" then "unmodelled auto-bucket"
             else renderSeq ((auto.zip (flags aok)).map fun (u, k) => if k then Out.val (itoa u) else Out.val errorParsing)
           | .explicit _ => "bad-args"
     | _, _, _, _, _, _, _, _ => "bad-args"
+  | [op, pre, kind, fmt, zone, zok, strs, detect, dok, offs, abbrs, _, _, bucket] =>
+    if op ≠ "seqe" ∧ op ≠ "seqpar" then "bad-op"
+    else match Hex.dec pre, Hex.dec fmt, Hex.dec zone, decHexList strs, decHexList detect, ints offs, decHexList abbrs, Hex.dec bucket with
+    | some pre, some fmt, some zone, some strs, some detect, some offs, some abbrs, some bucket =>
+      if !(isAscii fmt && isAscii zone) then "unmodelled non-ascii"
+      else
+        let (loc, ok) := parseTimezoneLocation zone (zok = "1")
+        let bl := timeBucketToFormat bucketTable bucket
+        if !ok then compileErr "func.parsing" "<PARSE-ERROR>"
+        else match modeOf timeFormats fmt with
+          | .cache => renderSeq (cacheRun pre [] (zipSeqF kind bl loc strs detect (flags dok) offs abbrs))
+          | _ => "bad-args"
+    | _, _, _, _, _, _, _, _ => "bad-args"
+  | ["kw", word] =>
+    match Hex.dec word with
+    | some w =>
+      match timeKeyword w with
+      | some .now => "ok kw=now"
+      | some .live => "ok kw=live"
+      | some .delta => "ok kw=delta"
+      | none => "ok kw=none"
+    | none => "bad-args"
+  | ["cc", fn, argc, c1, eok, zok] =>
+    match argc.toNat? with
+    | some n =>
+      if n = 0 then "ok errs=. val=-"
+      else
+        let zonePos := if fn = "buckettime" then 4 else 3
+        match compileCheck fn n (fun i => if i = 1 then c1 = "1" else true) (eok = "1") (zok = "1" || n < zonePos) with
+        | some (kind, marker) => compileErr kind marker
+        | none => "ok built"
+    | none => "bad-args"
   | ["dur", arg] =>
     match Hex.dec arg with
     | some arg => render "." (duration arg)
